@@ -25,7 +25,7 @@ ASSUMPTIONS = [
 ]
 BUDGET = {"quick": 85, "thorough": 900}
 ROUNDS = {"thorough": 6}
-FLOORS = {"slices_compared": {"quick": 4000, "thorough": 40000}, "returned_numbers": {"quick": 600, "thorough": 6000}, "targets": 40, "must_return_checked": 10}
+FLOORS = {"slices_compared": {"quick": 4000, "thorough": 40000}, "returned_numbers": {"quick": 600, "thorough": 6000}, "targets": 40, "must_return_checked": 10, "rescaled_batches": 4}
 
 # fully batched [S] evaluations that must return numbers (the library's own *_batch tests cover these classes)
 MUST_RETURN = {("time-plain", "like"), ("time-ratio", "like"), ("time-ratio", "coal"), ("time-shift", "skyride"), ("time-shift", "skygrid"), ("time-ratio", "bdsk"),
@@ -49,6 +49,8 @@ def cases(tier, seed):
                 out.append({"graph": name, "target": t, "mode": mode, "shape": shape, "seed": int(rng.integers(2**31))})
     # deterministic sweep (the same in every run and for every seed): every density alone inside a joint, with each single
     # parameter - and the parameters of the tree together - carrying the sample dimension on its own
+    for i, (model, shape_, factors) in enumerate([("JC69", "caterpillar", [1.0, 1e-12]), ("HKY", "balanced", [1e-10, 2.0]), ("HKY+I", "caterpillar", [0.5, 1e-12]), ("GTR+W4", "random", [1.0, 1e-11])]):
+        out.append({"rescaled_batch": True, "graph": "-", "target": "like", "mode": "given", "shape": [2], "model": model, "tree_shape": shape_, "factors": factors, "n": 60 + 20 * i, "seed": 99 + i})
     for name in zoo.DETERMINISTIC:
         g = zoo.build(name, 0)
         ids = [i for i in g["leaves"] if i != "mvn.tril.unres"]
@@ -131,7 +133,41 @@ def inconsistent_components(model, sshape=None):
     return sorted(out)
 
 
+def run_rescaled_batch(case):
+    """A batch whose samples differ by hundreds of orders of magnitude in likelihood, on a tree large enough for the rescaled pass:
+    every sample still equals its own slice."""
+    import torch
+
+    from . import c03
+    from ..gen import phylo
+
+    V = []
+    C = {"slices_compared": 0, "returned_numbers": 0, "batched_raised": 0, "must_return_checked": 0, "targets": ["rescaled-batch:" + case["model"]], "raised_by": [], "rescaled_batches": 1}
+    cfg = {"shape": case["tree_shape"], "model": case["model"], "scale": 0.2, "target": -100.0, "seed": case["seed"], "nsites": 3, "history": False, "batch": False, "conserved": False, "dup": False}
+    c = c03.make(cfg, case["n"])
+    bl0 = torch.tensor(c["branch_lengths"], dtype=torch.float64)
+    rows = torch.stack([bl0 * f for f in case["factors"]])
+    vals = []
+    for which in ("batch", 0, 1):
+        objs, dic = tt.load(phylo.likelihood_json(c))
+        like = dic["like"]
+        like.rescale = True
+        dic["tree.blens"].tensor = rows if which == "batch" else rows[which]
+        vals.append(tt.as_np(like(), "C10:not-a-tensor", "log-likelihood").reshape(-1))
+    C["returned_numbers"] += 1
+    for r in (0, 1):
+        C["slices_compared"] += 1
+        a, b = float(vals[0][r]), float(vals[1 + r][0])
+        if not np.isfinite(a) == np.isfinite(b) or (np.isfinite(b) and abs(a - b) > 1e-9 * max(1.0, abs(b))):
+            V.append(tt.viol("C10:mixing:rescaled-likelihood-batch", "rescaled likelihood, %d taxa, branch-length factors %s: sample %d of the batch gives %r, the same sample evaluated alone gives %r" % (
+                case["n"], case["factors"], r, a, b), case=case))
+            break
+    return {"violations": V, "counters": C, "fingerprint": "rescaled-batch|%s|%d" % (case["model"], case["seed"]), "sample": None}
+
+
 def run_case(case):
+    if case.get("rescaled_batch"):
+        return run_rescaled_batch(case)
     V = []
     g = zoo.build(case["graph"], case["seed"])
     t = case["target"]
